@@ -159,3 +159,109 @@ def c04_ok(enc, sysm, st):
   for tid in range(len(sysm.threads)):
     conj.append(st[('died', tid)] == 0)
   return z3.And(*conj)
+
+
+# ------------------------------------------------------------------------------------------------
+# replay glue: the same scenario on the real classes with controlled primitives
+# ------------------------------------------------------------------------------------------------
+class PyLog:
+  """Python-side twin of the model log: entries (tag, kind, val)."""
+
+  def __init__(self):
+    self.entries = []
+
+  def item(self, v):
+    for x in (v if isinstance(v, list) else [v]):
+      self.entries.append((0, 0, int(x)))
+
+  def stop(self, e):
+    mask = 0
+    for a in e.args:
+      mask |= int(a)
+    self.entries.append((1, F.K_STOP, (mask + 16 * len(e.args)) & 0xFF))
+
+  def err(self, e):
+    kind = {'TimeoutError': F.K_TIMEOUT, 'ValueError': F.K_USER, 'RuntimeError': F.K_RUNTIME, 'AssertionError': F.K_ASSERT,
+            'StopIteration': F.K_STOP, 'Empty': F.K_EMPTY, 'Full': F.K_FULL}.get(type(e).__name__, F.K_USER)
+    val = 0
+    if kind == F.K_USER and e.args and isinstance(e.args[0], int):
+      val = e.args[0]
+    self.entries.append((2, kind, val))
+    self.last_error = repr(e)
+    import traceback, os
+    if os.environ.get('VF_DEBUG_REPLAY'):
+      traceback.print_exception(e)
+
+
+class UserError(ValueError):
+  pass
+
+
+def real_queue(sched, enc, name, cap, max_enqueuer, timeout, ignore_error=False):
+  """A real IteratorQueue whose primitives and racy fields are controlled by `sched`."""
+  from ml_metrics._src.utils import iter_utils
+  from . import bmc_replay as R
+  q = iter_utils.IteratorQueue(cap, max_enqueuer=max_enqueuer, timeout=timeout, ignore_error=ignore_error)
+  racy = sorted({r[2] for r in enc.racy if r[0] == 'g' and r[1] == name})
+  cls = type('IteratorQueueUnderReplay', (iter_utils.IteratorQueue,), {f: R.RacyField(sched, name, f) for f in racy})
+  for f in racy:
+    q.__dict__['_vf_' + f] = q.__dict__.pop(f)
+  q.__class__ = cls
+  q._dequeue_lock = R.CtlCondition(sched, name + '.D')
+  q._enqueue_lock = R.CtlCondition(sched, name + '.E')
+  q._states_lock = R.CtlRLock(sched, name + '.S')
+  q._queue = R.CtlQueue(sched, name + '.Q', cap)
+  return q
+
+
+def queue_threads(sysm, enc, trace, drivers):
+  """Returns make_threads(sched) for bmc_replay.run_schedule plus the dict of python logs it fills."""
+  from . import bmc_replay as R
+  m = sysm.meta
+  P = trace['params']
+  logs = {f'LOG{c}': PyLog() for c in range(m['ncons'])}
+  holder = {}
+
+  def make(sched):
+    capd = sysm.queues['q.Q']['cap']
+    cap = P[capd] if isinstance(capd, str) else capd
+    to = sysm.timeout
+    timeout = (1.0 if (P[to] if isinstance(to, str) else to) else None)
+    q = real_queue(sched, enc, 'q', cap, sysm.objects['q'].fields['_max_enqueuer'][1], timeout)
+    holder['q'] = q
+    env = {'q': q, 'UserError': UserError}
+    env.update(logs)
+    for p in range(m['nprod']):
+      d = sysm.iters[f'SRC{p}']
+      fail = P.get(d['fail']) if d.get('fail') else None
+      env[f'SRC{p}'] = R.ModelIter(sched, f'SRC{p}', d['n'], d['base'], d['ret'], None if fail in (None, 255) else fail)
+    for k, v in P.items():
+      env.setdefault(k, v)
+    fns = {}
+    for name, src in drivers.items():
+      ns = dict(env)
+      exec(src, ns)                     # the very driver source the model was compiled from
+      fn = [v for k, v in ns.items() if callable(v) and getattr(v, '__code__', None) is not None and v.__code__.co_filename == '<string>'][-1]
+      fns[name] = fn
+    return fns
+  return make, logs, holder
+
+
+def c04_ok_py(meta, logs):
+  """Python twin of c04_ok on real logs."""
+  nprod, items, ncons = meta['nprod'], meta['items'], meta['ncons']
+  allitems = [e[2] for lg in logs.values() for e in lg.entries if e[0] == 0]
+  want = sorted(16 * p + 1 + i for p in range(nprod) for i in range(items[p]))
+  if sorted(allitems) != want:
+    return False, f'items received {sorted(allitems)} != produced {want}'
+  full = sum(1 << p for p in range(nprod)) + 16 * nprod
+  for name, lg in logs.items():
+    if not lg.entries or lg.entries[-1][:2] != (1, F.K_STOP) or lg.entries[-1][2] != full:
+      return False, f'{name} does not end with StopIteration carrying all return values: {lg.entries}'
+    if any(e[0] != 0 for e in lg.entries[:-1]):
+      return False, f'{name} has a terminal event before the end: {lg.entries}'
+    for p in range(nprod):
+      seq = [e[2] for e in lg.entries if e[0] == 0 and (e[2] - 1) // 16 == p]
+      if seq != sorted(seq):
+        return False, f'{name} received elements of producer {p} out of order: {seq}'
+  return True, ''
